@@ -281,15 +281,24 @@ fn run_pol<R: Res>(seed: u64, n: usize, pop: &Tree, spec: &Tree, shared_genomes:
     for c in PROBE_CALLS.iter() {
         c.store(0, SeqCst);
     }
-    let mut hist: BTreeMap<i64, u64> = BTreeMap::new();
-    for _ in 0..n {
-        rng.armed = true;
-        let o = match sel.select(&population, &mut rng) {
-            Ok(r) => population.iter().position(|q| std::ptr::eq(q, r)).map_or(-100, |i| i as i64),
-            Err(e) => e.0,
-        };
-        *hist.entry(o).or_insert(0) += 1;
-    }
+    // the measured selections run on ANOTHER THREAD than the one that built (and warmed up) the selector value:
+    // nothing thread-bound may influence what is selected
+    let hist: BTreeMap<i64, u64> = std::thread::scope(|sc| {
+        sc.spawn(|| {
+            let mut hist: BTreeMap<i64, u64> = BTreeMap::new();
+            for _ in 0..n {
+                rng.armed = true;
+                let o = match sel.select(&population, &mut rng) {
+                    Ok(r) => population.iter().position(|q| std::ptr::eq(q, r)).map_or(-100, |i| i as i64),
+                    Err(e) => e.0,
+                };
+                *hist.entry(o).or_insert(0) += 1;
+            }
+            hist
+        })
+        .join()
+    })
+    .unwrap_or_else(|panic| std::panic::resume_unwind(panic));
     let hist = L(hist.into_iter().map(|(o, c)| tl![a(o), a(c)]).collect());
     if nprobes == 0 {
         return Some(hist);
@@ -418,7 +427,29 @@ fn gen_c06(tier: &str, rng: &mut Sm) -> Gen {
             }
         }
     }
-    g.meta("generator", "populations: empty, singleton, all-equal, duplicate-laden, ragged (missing cases), random; selectors: best, worst, random, tournament sizes 1..n+2, lexicase case counts 0..4, weighted trees (depth <= 2, weights incl. 0), dynamic lists (also nested); some configurations with an extreme (all-zero / all-one) first random word in every selection (support only); selector values that served other populations before");
+    // a population of 300 individuals with pairwise distinct totals (two cases each): membership and law where a byte-sized
+    // index or a different sampling path would show
+    {
+        let n = 300usize;
+        let mut perm: Vec<i64> = (0..n as i64).collect();
+        for i in (1..n).rev() {
+            perm.swap(i, rng.below(i + 1));
+        }
+        let pop: Vec<Vec<i64>> = perm.iter().enumerate().map(|(i, p)| vec![3 * p, (i % 3) as i64]).collect();
+        for spec in [
+            tl![A(0)],
+            tl![A(1)],
+            tl![A(2)],
+            tl![A(3), A(2)],
+            tl![A(4), A(2)],
+            tl![A(6), tl![A(5), A(1), tl![A(0)]], tl![A(5), A(3), tl![A(2)]]],
+            tl![A(8), tl![A(2)], A(2), tl![A(8), tl![A(1)], A(1), tl![A(7)]]],
+        ] {
+            let pol = rng.range(0, 1);
+            g.inputs.push(case(rng, draws * 20, pol, pop.clone(), spec));
+        }
+    }
+    g.meta("generator", "populations: empty, singleton, all-equal, duplicate-laden, ragged (missing cases), random, and one of 300 individuals; selectors: best, worst, random, tournament sizes 1..n+2, lexicase case counts 0..4, weighted trees (depth <= 2, weights incl. 0), dynamic lists (also nested); some configurations with an extreme (all-zero / all-one) first random word in every selection (support only); selector values that served other populations before");
     g
 }
 
@@ -472,7 +503,22 @@ fn gen_c07(tier: &str, rng: &mut Sm) -> Gen {
             }
         }
     }
-    g.meta("generator", format!("{reps} x populations of 1..{nmax} single-case individuals with and without ties, both polarities, separate and shared genomes; every tournament size 1..n; best and worst; populations of multi-case individuals whose per-case vectors read lexicographically disagree with their totals, and of individuals evaluated on different numbers of cases (incl. none); selector values that served populations of other sizes before"));
+    // populations far too large to enumerate their k-subsets: pairwise distinct totals (a scrambled permutation),
+    // judged by the rank law C(r-1, k-1) / C(n, k)
+    for n in if tier == "thorough" { vec![40usize, 300, 1000] } else { vec![40usize, 300] } {
+        let mut totals: Vec<i64> = (0..n as i64).map(|i| i * 3 - 50).collect();
+        for i in (1..n).rev() {
+            totals.swap(i, rng.below(i + 1));
+        }
+        let pop: Vec<Vec<i64>> = totals.iter().map(|t| vec![*t]).collect();
+        for (j, k) in [1usize, 2, 3, 7, n].into_iter().enumerate() {
+            let pol = ((j + n) % 4) as i64;
+            g.inputs.push(case(rng, if k == n { 300 } else { draws * 2 }, pol, pop.clone(), tl![A(3), au(k)]));
+        }
+        g.inputs.push(case(rng, 50, 1, pop.clone(), tl![A(0)]));
+        g.inputs.push(case(rng, 50, 0, pop.clone(), tl![A(1)]));
+    }
+    g.meta("generator", format!("{reps} x populations of 1..{nmax} single-case individuals with and without ties, both polarities, separate and shared genomes; every tournament size 1..n; best and worst; populations of multi-case individuals whose per-case vectors read lexicographically disagree with their totals, and of individuals evaluated on different numbers of cases (incl. none); selector values that served populations of other sizes before; populations of 40 and 300 (thorough: 1000) individuals with pairwise distinct totals under tournaments of size 1, 2, 3, 7 and n, judged by the rank law"));
     g
 }
 
@@ -509,7 +555,40 @@ fn gen_c08(tier: &str, rng: &mut Sm) -> Gen {
             g.inputs.push(case(rng, draws, pol, pop.clone(), tl![A(4), au(c)]));
         }
     }
-    g.meta("generator", "result matrices up to 6 individuals x 4 cases with ties and duplicates, zero cases, single individual, both polarities, configured case count <= results available, more cases than individuals incl. cases on which everybody ties, equal totals with different per-case vectors");
+    // more cases (the law enumerates all 720 / 5040 / 40320 case orders): a shuffle that only reaches the first few cases,
+    // or handles long case lists differently, shows here
+    for (n, c) in if tier == "thorough" { vec![(4usize, 6usize), (5, 6), (3, 7), (4, 7), (3, 8)] } else { vec![(4usize, 6usize), (3, 7)] } {
+        let pop = matrix(rng, n, c, 3);
+        for pol in [0, 1] {
+            g.inputs.push(case(rng, draws, pol, pop.clone(), tl![A(4), au(c)]));
+        }
+        g.inputs.push(case(rng, draws / 4, 1, pop.clone(), tl![A(4), au(c - 2)]));
+    }
+    // MANY cases (12, 20, 50: far beyond enumerating the case orders): matrices in which every case has exactly one
+    // best individual, so that the first case of the shuffled order decides (the closed form C08_decisive_cases)
+    for (n, c) in [(5usize, 12usize), (4, 20), (7, 50)] {
+        for pol in [0i64, 1] {
+            let pop: Vec<Vec<i64>> = (0..n)
+                .map(|i| {
+                    (0..c)
+                        .map(|k| {
+                            let winner = (k * 7 + 3 + k / n) % n;
+                            // scores: the winner has 9, the others 0..5; errors: the winner has 0, the others 1..6
+                            if pol == 1 {
+                                if i == winner { 9 } else { rng.range(0, 5) }
+                            } else if i == winner {
+                                0
+                            } else {
+                                rng.range(1, 6)
+                            }
+                        })
+                        .collect()
+                })
+                .collect();
+            g.inputs.push(case(rng, draws, pol, pop, tl![A(4), au(c)]));
+        }
+    }
+    g.meta("generator", "result matrices up to 6 individuals x 4 cases with ties and duplicates, zero cases, single individual, both polarities, configured case count <= results available, more cases than individuals incl. cases on which everybody ties, equal totals with different per-case vectors; 6 and 7 (thorough: 8) cases; 12, 20 and 50 cases with a unique best individual on every case");
     g
 }
 
